@@ -18,7 +18,8 @@ def finish(res, prop, proof, cov, viol, known=None):
     kn, _ = common.known_findings()
     for v in viol[:3]:
         res.violation({"property": prop, "kind": v.get("kind", "property-oracle-on-implementation"), "failing": v,
-                       "replay": "lib/par_check.py: the scenario description in 'failing.case' (project shape, -j, seed) re-run with the same VERIF_SEED"})
+                       "replay": "lib/par_check.py: the scenario description in 'failing.case' (project shape, -j, seed) re-run with the same VERIF_SEED"},
+                      found_input=(v.get("kind") != "correspondence"))
 
 
 # ---------------------------------------------------------------- C06
@@ -291,8 +292,65 @@ def run_c12(res):
                     break
     finally:
         pp.close()
+    # ---- a cycle that closes only while a checksummed dependency is rebuilt out of band:
+    # T -> (m ->)* d, d checksummed over src; after a good build src changes and d (or something
+    # below it) starts to ask for T.  redo-ifchange T holds T's lock and hands d to redo-unlocked.
+    oob = {"runs": 0, "bad": 0}
+    for i in range(4 if t == "quick" else 30):
+        pp = par.ParProject(bindir, {}, "c12oob")
+        try:
+            W = par.WORK
+            depth = r.randint(0, 2)            # plain intermediates between T and d
+            below = r.random() < 0.5           # the back edge sits in d itself or in a new dependency of d
+            chain = ["T"] + ["m%d" % q for q in range(depth)] + ["d"]
+            for a, b in zip(chain, chain[1:]):
+                open(os.path.join(pp.root, a + ".do"), "w").write(W + "redo-ifchange %s\ncat %s\n" % (b, b))
+            open(os.path.join(pp.root, "d.do"), "w").write(W + "redo-ifchange src\ncat src\nredo-stamp < src\n")
+            open(os.path.join(pp.root, "src"), "w").write("v1\n")
+            r0 = pp.run(["redo-ifchange", "T"], log=False, timeout=20)
+            if r0["rc"] != 0:
+                raise common.Broken("C12 oob scenario: the acyclic first build failed", r0["err"][-600:])
+            open(os.path.join(pp.root, "src"), "w").write("v2\n")
+            back = r.choice(chain[:-1])
+            if below:
+                open(os.path.join(pp.root, "e.do"), "w").write(W + "redo-ifchange %s\necho e\n" % back)
+                open(os.path.join(pp.root, "d.do"), "w").write(W + "redo-ifchange src e\ncat src\nredo-stamp < src\n")
+            else:
+                open(os.path.join(pp.root, "d.do"), "w").write(W + "redo-ifchange src %s\ncat src\nredo-stamp < src\n" % back)
+            j = r.choice([None, None, 2])
+            rr = pp.run(["redo-ifchange", "T"] if j is None else ["redo", "-j%d" % j, "T"], log=False, timeout=12)
+            oob["runs"] += 1
+            bad = None
+            if rr["hung"]:
+                bad = "hang (no termination within 12 s)"
+            elif rr["rc"] == 0:
+                bad = "a cyclic build exited 0"
+            elif "cyclic" not in rr["err"].lower():
+                bad = "no cyclic-dependency diagnosis"
+            if bad:
+                oob["bad"] += 1
+                viol.append({"case": {"scenario": "after a good build of %s (d checksummed over src), src changes and %s starts to depend on %s; then %s" % (
+                    " -> ".join(chain), "a new dependency of d" if below else "d", back, "redo-ifchange T" if j is None else "redo -j%d T" % j)},
+                    "what": bad, "stderr": rr["err"][-400:], "snapshot": rr["hung"]})
+        finally:
+            pp.close()
+    # ---- the serial clause against the model: histories from the 'cycles' profile (a back edge added to
+    # a random project; cycles closing during an out-of-band rebuild and repaired again), real vs model
+    import serial
+    srun = serial.run_profile("C12", ["cycles"], 40 if t == "quick" else 600)
+    ser = {"histories": len(srun["lines"]), "steps_compared": sum(len(x) for x in srun["reals"]),
+           "model_disagreements": len(srun["disagreements"]), "input_distribution": srun["stats"]}
+    for l, real in zip(srun["lines"], srun["reals"]):
+        for (resu, _, det) in real:
+            if resu == "rc=124":
+                viol.append({"case": {"history": l}, "what": "a command of a serial history did not terminate (harness time limit)"})
+                break
+    if srun["disagreements"] and not viol:
+        viol.append({"kind": "correspondence", "case": {"history": srun["disagreements"][0]["history"]},
+                     "what": "Build/Model.v and the implementation disagree on a history of the 'cycles' profile",
+                     "first_disagreement": {k: v for k, v in srun["disagreements"][0].items() if k != "history"}})
     finish(res, "C12", proof, {
-        "evaluations": n, "distinct_nontrivial": n,
-        "rule": "projects with a dependency cycle of length 1..4 behind an acyclic prefix of length 0..2 with acyclic siblings; entry = the prefix top, a cycle member, two cycle members, or the top plus a sibling; -j1..4; every run must terminate within 15 s with a non-zero status and a cyclic-dependency diagnosis; non-trivial = every run",
-        "samples": samples, "input_distribution": dist, "known_finding_hits": known_hits, "late_entries": late}, viol)
+        "evaluations": n, "distinct_nontrivial": n, "serial_histories": ser,
+        "rule": "projects with a dependency cycle of length 1..4 behind an acyclic prefix of length 0..2 with acyclic siblings; entry = the prefix top, a cycle member, two cycle members, or the top plus a sibling; -j1..4; every run must terminate within 15 s with a non-zero status and a cyclic-dependency diagnosis; plus late entries into a registered cycle, and cycles that close only during the out-of-band rebuild of a checksummed dependency; non-trivial = every run",
+        "samples": samples, "input_distribution": dist, "known_finding_hits": known_hits, "late_entries": late, "cycle_closed_during_out_of_band_rebuild": oob}, viol)
     res.assumptions = ["the serial clause is also covered by the serial model (profile 'cycles' in C01..C05 runs)"]
